@@ -99,6 +99,16 @@ def classify(ctx, harnesses, results):
             own = [f for f in (r.get("failed") or []) if f["id"].startswith(("harness.", "verif_", "ref_")) and ".assertion." not in f["id"]]
             unw = [f for f in (r.get("failed") or []) if ".unwind." in f["id"]]
             if v == "REFUTED" and unw and not h.meta.get("unwind_is_property"):
+                # the loop bound was already raised three times (pipeline.Runner.decide): either the bound is still too small (inconclusive) or the code under test
+                # really loops beyond anything the bounded geometry allows.  Only the real code decides: the solver's inputs are replayed natively and a failing /
+                # crashing / non-terminating replay is a violation; anything else stays inconclusive.
+                rp = confirm(ctx, h, r) if r.get("inputs") else {"confirmed": False, "note": "no inputs"}
+                r["replay"] = {k: rp.get(k) for k in ("rc", "out", "dir", "confirmed", "note")}
+                if rp["confirmed"]:
+                    violations.append(r)
+                    print("VIOLATION property=%s replay=%s" % (pid, rp["dir"]))
+                    print("  harness=%s failed=%s (unwinding assertion; confirmed by the native replay)" % (h.name, "; ".join(f["text"] for f in (r.get("failed") or [])[:4])))
+                    continue
                 errors.append(r)
                 print("ERROR property=%s harness=%s: unwinding assertion fails (%s): the stated loop bound %d is too small for this code -- inconclusive, not a verdict" % (pid, h.name, unw[0]["id"], h.unwind))
             elif v == "REFUTED" and own:
